@@ -29,6 +29,10 @@ def run(prog, rep):
     # comments / labels reach the file unaltered only if the string writer refuses what does not fit instead of cutting it
     from .c13 import string_write_rules
     rep.attempt(string_write_rules, prog, rep)
+    # .. and re-parse to the same text / dates: the string and date codecs the entry codec treats as atoms are themselves inverse
+    from .. import primitives as PR
+    rep.attempt(PR.string_codec, prog, rep)
+    rep.attempt(PR.date_codec, prog, rep)
     # a refused add/remove inside a history must leave table and file as they were (C07's path rule for the two primitives)
     from ..codecs import Codecs as _Codecs
     from .c07 import path_rules
